@@ -37,6 +37,7 @@ def _init_worker(pid):
     global _CHECK
     common.use_repo()
     _CHECK = load_check(pid)
+    common.prime_inspect_cache()
     if hasattr(_CHECK, "init_worker"):
         _CHECK.init_worker()
 
@@ -54,7 +55,7 @@ def _sort_key(rec):
 
 
 def write_evidence(pid, ev):
-    path = os.path.join(VERIF, "evidence", pid + ".json")
+    path = os.path.join(os.environ.get("VERIF_EVIDENCE_DIR", os.path.join(VERIF, "evidence")), pid + ".json")
     os.makedirs(os.path.dirname(path), exist_ok=True)
     tmp = path + ".tmp"
     with open(tmp, "w") as f:
@@ -102,6 +103,7 @@ def _main(pid, args, seed):
     t0 = time.time()
     common.use_repo()
     check = load_check(pid)
+    common.prime_inspect_cache()
     if hasattr(check, "init_worker"):
         check.init_worker()
 
@@ -177,9 +179,17 @@ def _main(pid, args, seed):
           f"failures={nviol} wall={ev['wall_s']}s", flush=True)
     if not reported:
         return 0
-    os.makedirs(os.path.join(VERIF, "replays"), exist_ok=True)
+    classes = {}
+    for rec in total.failures:
+        key = (rec["sub"], rec["behaviour"], ",".join(rec["tags"]))
+        classes.setdefault(key, [0, rec])
+        classes[key][0] += 1
+    for key, (n, rec) in sorted(classes.items(), key=lambda kv: -kv[1][0])[:25]:
+        print(f"  class sub={key[0]} behaviour={key[1]} tags=[{key[2]}] n={n} e.g. {json.dumps(rec['case'], default=repr)[:200]}")
+    rdir = os.environ.get("VERIF_REPLAY_DIR", os.path.join(VERIF, "replays"))
+    os.makedirs(rdir, exist_ok=True)
     for i, rec in enumerate(reported):
-        path = os.path.join(VERIF, "replays", f"{pid}-{i}.json")
+        path = os.path.join(rdir, f"{pid}-{i}.json")
         with open(path, "w") as f:
             json.dump(dict(property=pid, failure=rec,
                            replay_cmd=f"./run {pid} --replay {path}"), f, indent=1, default=repr)
